@@ -92,7 +92,7 @@ fn main() {
     }
     if args[1] == "counts" {
         use tree::prog::Grammar;
-        for (name, g) in [("core", Grammar::new(1, 1, 2, 2, 10)), ("rich", Grammar::new(1, 1, 9, 8, 7)), ("dataev", Grammar::new(12, 12, 2, 3, 6)), ("funds", Grammar::new(1, 1, 1, 16, 7))] {
+        for (name, g) in [("core", Grammar::new(1, 1, 2, 2, 10)), ("rich", Grammar::new(1, 1, 9, 8, 7)), ("dataev", Grammar::new(12, 12, 2, 3, 6)), ("funds", Grammar::new(1, 1, 1, 18, 7))] {
             let v: Vec<String> = (1..=10).filter(|n| *n <= match name { "core" => 10, "rich" => 7, "dataev" => 6, _ => 7 }).map(|n| format!("<={}:{}", n, g.count_upto(n))).collect();
             println!("{} {}", name, v.join(" "));
         }
